@@ -210,13 +210,14 @@ def walk_obligations(eng, classes, tier):
         obs.append(compare.raises_only(eng, f"{PID}.Component.__eq__.non_component_never_fails", "cal:Component.__eq__",
                                        source.lines_of(de.node), paths, [], tmo))
         obs += eq_prefix_obligations(eng, de.node, tmo)
+        obs += eq_matching_obligation(de.node, tmo)
     return obs
 
 
 def eq_prefix_obligations(eng, node, tmo):
     """the statements of Component.__eq__ BEFORE the multiset matching of the subcomponents, for two components: a different number
     of subcomponents or unequal properties (CaselessDict.__eq__: C17) answer False at once; otherwise the matching is reached.
-    (The matching itself - greedy, needs == to be an equivalence on the subcomponents - is explored by the stand-in only.)"""
+    (The matching itself: eq_matching_obligation - a counting lemma over the exact statement list; the algebra of == on values is explored.)"""
     fn = "cal:Component.__eq__"
     oid = f"{PID}.Component.__eq__.different_number_of_subcomponents_or_unequal_properties_is_False"
     body = source.strip_docstring(node.body)
@@ -267,12 +268,87 @@ def eq_prefix_obligations(eng, node, tmo):
     return [ob]
 
 
+MATCH_TAIL = """
+unmatched = list(other.subcomponents)
+for subcomponent in self.subcomponents:
+    for index, candidate in enumerate(unmatched):
+        if subcomponent == candidate:
+            del unmatched[index]
+            break
+    else:
+        return False
+return True
+"""
+
+
+def eq_matching_obligation(node, tmo):
+    """The greedy matching of Component.__eq__ decides equality of the two MULTISETS of subcomponent classes.
+    Stated for the exact statement list MATCH_TAIL (any other text: undecided).  Induction hypothesis (height): == on the subcomponents
+    is an equivalence, so every subcomponent has a class cls(x) and x == y iff cls(x) == cls(y).  Ghost state: O[c], S_i[c], U[c] = number of
+    elements of class c in other.subcomponents, self.subcomponents[:i], unmatched.  Invariant of the outer loop:
+        for all c: U[c] == O[c] - S_i[c] >= 0   and   len(unmatched) == n - i          (n = len(self.subcomponents) = len(other.subcomponents))
+    Assumed list facts (CPython): the inner for / else finds a candidate iff U[cls(subcomponent)] > 0; `del unmatched[index]` lowers that
+    count and the length by one and nothing else; an empty list has count 0 for every class; S_n[c] >= S_{i+1}[c]."""
+    import textwrap
+    fn = "cal:Component.__eq__"
+    oid = f"{PID}.Component.__eq__.matching_decides_equality_of_the_multisets_of_subcomponents"
+    body = source.strip_docstring(node.body)
+    idx = [k for k, x in enumerate(body) if isinstance(x, ast.Assign) and "list(other.subcomponents)" in ast.unparse(x.value)]
+    ob = Obligation(oid, fn, "z3", PROVED, lines=source.lines_of(node))
+    if len(idx) != 1:
+        ob.status, ob.detail = UNDECIDED, "`unmatched = list(other.subcomponents)` not found"
+        return [ob]
+    want = ast.parse(textwrap.dedent(MATCH_TAIL)).body
+    if [ast.dump(x) for x in body[idx[0]:]] != [ast.dump(x) for x in want]:
+        ob.status, ob.detail = UNDECIDED, "the statements from `unmatched = list(other.subcomponents)` on are not the exact list the counting lemma is stated for"
+        return [ob]
+    A = z3.ArraySort(z3.IntSort(), z3.IntSort())
+    O, S, U, Sn = z3.Const("O", A), z3.Const("S_i", A), z3.Const("U", A), z3.Const("S_n", A)
+    c, x, n, i, lenU = z3.Ints("c x n i len_unmatched")
+    U2, S2 = z3.Store(U, x, U[x] - 1), z3.Store(S, x, S[x] + 1)
+    inv = lambda Uv, Sv, k: z3.And(Uv[k] == O[k] - Sv[k], Uv[k] >= 0)
+    vcs = [
+        ("initiation", [U == O, S == z3.K(z3.IntSort(), z3.IntVal(0)), O[c] >= 0, lenU == n, i == 0], z3.And(inv(U, S, c), lenU == n - i)),
+        ("preservation (a candidate is found and deleted)", [inv(U, S, c), inv(U, S, x), U[x] > 0, lenU == n - i, i < n],
+         z3.And(inv(U2, S2, c), lenU - 1 == n - (i + 1))),
+        ("no candidate: False is right (the class of self[i] is short in other)", [inv(U, S, x), U[x] == 0, Sn[x] >= S[x] + 1], Sn[x] != O[x]),
+        ("exit: True is right (every class has the same count)", [inv(U, Sn, c), lenU == n - i, i == n, z3.Implies(lenU == 0, U[c] == 0)], O[c] == Sn[c]),
+    ]
+    import time as _t
+    proved = 0
+    for name, hyps, goal in vcs:
+        t0 = _t.time()
+        sv = z3.Solver()
+        sv.set("timeout", int(tmo * 1000))
+        sv.add(*hyps)
+        vac = sv.check()                       # the hypotheses must be satisfiable (no vacuous VC)
+        sv.add(z3.Not(goal))
+        r = sv.check()
+        ob.seconds += _t.time() - t0
+        if vac != z3.sat:
+            ob.status, ob.detail = UNDECIDED, f"VC '{name}': hypotheses not satisfiable ({vac}) - vacuous"
+            return [ob]
+        if r == z3.sat:
+            ob.status, ob.detail = UNDECIDED, f"VC '{name}' of the counting lemma fails: {str(sv.model())[:200]} (a lemma over ghost counts: no input of the real code follows from it)"
+            return [ob]
+        if r != z3.unsat:
+            ob.status, ob.detail = UNDECIDED, f"VC '{name}': {r}"
+            return [ob]
+        proved += 1
+    ob.detail = (f"{proved} VCs (initiation, preservation, both exits) of the counting invariant U[c] == O[c] - S_i[c] >= 0, len(unmatched) == n - i; "
+                 "stated for the exact statement list of the matching; == on subcomponents an equivalence by induction on height; list facts assumed")
+    return [ob]
+
+
 def run(rep: common.Report):
     eng, classes = make_engine()
     findings = common.findings_for(PID)
     rep.trust("induction over the height of the (finite) component tree: recursive calls seen through the _walk contract",
               "loop rule: uniform body over a symbolic range with an accumulator (vc/pyvc/seqs.py)",
               "the select predicate is a pure total function (no exception, no side effect)",
+              "Component.__eq__ matching: counting lemma over the EXACT statement list of the loop (transcription guard); == on subcomponents is an "
+              "equivalence (induction hypothesis on height - the algebra itself is explored by the stand-in); CPython list facts: for / else finds a "
+              "candidate iff one of the class is left, del removes exactly that element, an empty list holds nothing",
               "engine: vc/pyvc + z3 5.1.0")
     try:
         obs = walk_obligations(eng, classes, rep.tier)
